@@ -1848,7 +1848,7 @@ func checkCloseCallers(c *Ctx, r *Report, rule string) {
 		}
 		n++
 		construct := "Channel.Close called from " + shortFn(top)
-		if top.Signature.Recv() != nil && (top.Name() == "Open" || top.Name() == "Close") {
+		if closeCallerAllowed(c, top, 0) {
 			r.OK(rule, construct, c.Pos(calls[0].Pos()), "an Open (failure path) or Close method")
 		} else {
 			r.Bad(rule, construct, c.Pos(calls[0].Pos()), "the channel is closed by something other than an Open or Close method: Channel.Close is not idempotent, so the caller's own Close panics afterwards (close of closed channel), and a closed channel's Read answers (nil, nil) for ever, so later read-first operations wait out their timeout instead of failing at once")
@@ -1964,4 +1964,33 @@ func checkDeadlineEveryPass(c *Ctx, r *Report, rule string) {
 			r.OK(rule, construct, c.Pos(read.Pos()), "every path from one read to the next passes the context check")
 		}
 	}
+}
+
+// closeCallerAllowed: an Open or Close method, or an unexported helper all of whose static callers are allowed (the
+// failure path of Open moved into a helper), two levels.
+func closeCallerAllowed(c *Ctx, fn *ssa.Function, depth int) bool {
+	if fn.Signature.Recv() != nil && (fn.Name() == "Open" || fn.Name() == "Close") {
+		return true
+	}
+	if depth >= 2 || fn.Object() == nil || fn.Object().Exported() {
+		return false
+	}
+	n := 0
+	for _, g := range c.LibFns {
+		if len(staticCallsTo(g, fn)) == 0 {
+			continue
+		}
+		top := g
+		for top.Parent() != nil {
+			top = top.Parent()
+		}
+		if top == fn {
+			continue
+		}
+		n++
+		if !closeCallerAllowed(c, top, depth+1) {
+			return false
+		}
+	}
+	return n > 0
 }
